@@ -112,6 +112,11 @@ func (g *SymbolGraph) RemoveEdge(from, to graphs.SymbolKey, kind *SymbolEdgeKind
 		}
 	}
 
+	// Edges of another kind may still lead from -> to; the adjacency indices must outlive them
+	if g.hasEdgeTo(fromBase, toBase) {
+		return
+	}
+
 	if depsMap, ok := g.deps[fromBase]; ok {
 		delete(depsMap, to)
 		if len(depsMap) == 0 {
@@ -125,6 +130,16 @@ func (g *SymbolGraph) RemoveEdge(from, to graphs.SymbolKey, kind *SymbolEdgeKind
 			delete(g.revDeps, toBase)
 		}
 	}
+}
+
+// hasEdgeTo reports whether any edge, of any kind, leads from the given source to the given target
+func (g *SymbolGraph) hasEdgeTo(fromBase, toBase string) bool {
+	for _, descriptor := range g.edges[fromBase] {
+		if descriptor.Edge.To.BaseId() == toBase {
+			return true
+		}
+	}
+	return false
 }
 
 func (g *SymbolGraph) AddController(request CreateControllerNode) (*SymbolNode, error) {
